@@ -36,6 +36,10 @@ import (
 type glExtern struct {
 	lean string   // Lean term applied to the translated arguments
 	ret  []string // Go result types
+	args []int    // when non-nil: which arguments (by index) are handed to the Lean term, in this order
+	// effect: when non-empty the call is also an EFFECT — before its value is used, `<effect> <selected args>` is
+	// appended to the function's trace (`trace_`), which every `return` hands back as the last component
+	effect string
 }
 
 type glTarget struct {
@@ -56,6 +60,7 @@ type glTarget struct {
 	// blockFrom up to (not including) the one that starts with blockUpto, as a function of the configured binders
 	// (every free name must be covered by `paths`) returning the expression blockResult afterwards.  The block
 	// must not leave the enclosing function (no return inside).
+	traceLean   string // Lean type of one trace entry ("" = the function has no effect externs)
 	in          string
 	blockFrom   string
 	blockUpto   string
@@ -89,19 +94,20 @@ func leanIdent(n string) string {
 type glErr struct{ msg string }
 
 type glCtx struct {
-	p      *pkgInfo
-	e      *emitter
-	t      *glTarget
-	file   *ast.File
-	vars   []map[string]string // scopes: Go name -> Go type ("" unknown)
-	inLoop bool
-	state  []string // loop-carried variables of the innermost loop
-	void   bool
-	nres   int
+	p          *pkgInfo
+	e          *emitter
+	t          *glTarget
+	file       *ast.File
+	vars       []map[string]string // scopes: Go name -> Go type ("" unknown)
+	inLoop     bool
+	state      []string // loop-carried variables of the innermost loop
+	void       bool
+	nres       int
 	join       []string // variables handed on by a jump-free `if` translated as a value
 	joinActive bool
-	known  map[string]*glTarget // translated functions of the same group/package by name
-	usesExt map[string]bool
+	known      map[string]*glTarget // translated functions of the same group/package by name
+	usesExt    map[string]bool
+	effectDone map[*ast.AssignStmt]bool
 }
 
 func (c *glCtx) fail(n ast.Node, f string, a ...interface{}) {
@@ -112,9 +118,9 @@ func (c *glCtx) fail(n ast.Node, f string, a ...interface{}) {
 	panic(glErr{where + fmt.Sprintf(f, a...)})
 }
 
-func (c *glCtx) push()                 { c.vars = append(c.vars, map[string]string{}) }
-func (c *glCtx) pop()                  { c.vars = c.vars[:len(c.vars)-1] }
-func (c *glCtx) declare(n, ty string)  { c.vars[len(c.vars)-1][n] = ty }
+func (c *glCtx) push()                { c.vars = append(c.vars, map[string]string{}) }
+func (c *glCtx) pop()                 { c.vars = c.vars[:len(c.vars)-1] }
+func (c *glCtx) declare(n, ty string) { c.vars[len(c.vars)-1][n] = ty }
 func (c *glCtx) lookup(n string) (string, bool) {
 	for i := len(c.vars) - 1; i >= 0; i-- {
 		if ty, ok := c.vars[i][n]; ok {
@@ -181,14 +187,15 @@ func leanStrLit(s string) string {
 }
 
 var glLib = map[string]glExtern{
-	"strings.HasPrefix":  {"KM.Go.strings_HasPrefix", []string{"bool"}},
-	"strings.HasSuffix":  {"KM.Go.strings_HasSuffix", []string{"bool"}},
-	"strings.Contains":   {"KM.Go.strings_Contains", []string{"bool"}},
-	"strings.ToLower":    {"KM.Go.strings_ToLower", []string{"string"}},
-	"unicode.IsControl":  {"KM.Go.unicode_IsControl", []string{"bool"}},
+	"strings.HasPrefix": {lean: "KM.Go.strings_HasPrefix", ret: []string{"bool"}},
+	"strings.HasSuffix": {lean: "KM.Go.strings_HasSuffix", ret: []string{"bool"}},
+	"strings.Contains":  {lean: "KM.Go.strings_Contains", ret: []string{"bool"}},
+	"strings.ToLower":   {lean: "KM.Go.strings_ToLower", ret: []string{"string"}},
+	"unicode.IsControl": {lean: "KM.Go.unicode_IsControl", ret: []string{"bool"}},
+	"errors.New":        {lean: "some", ret: []string{"error"}},
 }
 
-var glIgnoredCallPrefixes = []string{"logger.", "log.", "state.logger.", "s.logger.", "logger .", "fmt.Print"}
+var glIgnoredCallPrefixes = []string{"logger.", "log.", "state.logger.", "s.logger.", "pa.logger.", "logger .", "fmt.Print"}
 
 func (c *glCtx) ignorable(call *ast.CallExpr) bool {
 	s := c.p.str(call.Fun)
@@ -280,6 +287,10 @@ func (c *glCtx) expr(e ast.Expr) (string, string) {
 			return s + "." + x.Sel.Name, ft
 		}
 		c.fail(x, "field %s of a value of type %q", x.Sel.Name, ty)
+	case *ast.StarExpr:
+		// *p of a pointer that is only read: the value (a nil dereference is not modelled)
+		s, ty := c.expr(x.X)
+		return s, strings.TrimPrefix(ty, "*")
 	case *ast.UnaryExpr:
 		s, ty := c.expr(x.X)
 		switch x.Op {
@@ -426,7 +437,7 @@ func (c *glCtx) call(x *ast.CallExpr) (string, []string) {
 		}
 	}
 	if ex, ok := c.t.externs[fn]; ok {
-		return "(" + ex.lean + args() + ")", ex.ret
+		return "(" + ex.lean + c.externArgs(x, ex) + ")", ex.ret
 	}
 	if ex, ok := glLib[fn]; ok {
 		return "(" + ex.lean + args() + ")", ex.ret
@@ -445,6 +456,61 @@ func (c *glCtx) call(x *ast.CallExpr) (string, []string) {
 	}
 	c.fail(x, "call of %s", fn)
 	return "", nil
+}
+
+// externArgs: the (selected) translated arguments of a call of an external
+func (c *glCtx) externArgs(x *ast.CallExpr, ex glExtern) string {
+	var parts []string
+	if ex.args == nil {
+		for _, a := range x.Args {
+			s, _ := c.expr(a)
+			parts = append(parts, s)
+		}
+	} else {
+		for _, i := range ex.args {
+			if i >= len(x.Args) {
+				c.fail(x, "external %s: argument %d missing", c.p.str(x.Fun), i)
+			}
+			s, _ := c.expr(x.Args[i])
+			parts = append(parts, s)
+		}
+	}
+	if len(parts) == 0 {
+		return ""
+	}
+	return " " + strings.Join(parts, " ")
+}
+
+// effectOf: the effect external a statement's (single) right-hand call is, if any
+func (c *glCtx) effectOf(e ast.Expr) (*ast.CallExpr, glExtern, bool) {
+	call, ok := e.(*ast.CallExpr)
+	if !ok {
+		return nil, glExtern{}, false
+	}
+	ex, ok := c.t.externs[c.p.str(call.Fun)]
+	if !ok || ex.effect == "" {
+		return nil, glExtern{}, false
+	}
+	return call, ex, true
+}
+
+// traceUpdate: `let trace_ := trace_ ++ [<effect> args];`
+func (c *glCtx) traceUpdate(call *ast.CallExpr, ex glExtern, d int) string {
+	return "let trace_ := trace_ ++ [" + ex.effect + c.externArgs(call, ex) + "];" + ind(d)
+}
+
+// hasEffect: does the node contain a call of an effect external?
+func (c *glCtx) hasEffect(n ast.Node) bool {
+	found := false
+	ast.Inspect(n, func(m ast.Node) bool {
+		if call, ok := m.(*ast.CallExpr); ok {
+			if ex, ok := c.t.externs[c.p.str(call.Fun)]; ok && ex.effect != "" {
+				found = true
+			}
+		}
+		return true
+	})
+	return found
 }
 
 // structField: Go type of a field of a struct type declared in the package (non-pointer values only;
@@ -565,8 +631,8 @@ func (c *glCtx) assignedOuter(list []ast.Stmt) []string {
 					// that name are not loop-carried (conservative: names shadowing outer variables are refused below)
 					for _, l := range x.Lhs {
 						if id, ok := l.(*ast.Ident); ok {
-							if _, outer := c.lookup(id.Name); outer && id.Name != "_" {
-								c.fail(x, "loop body redeclares the outer variable %s", id.Name)
+							if _, outer := c.lookup(id.Name); outer && id.Name != "_" && assignsIdent(list, id.Name) {
+								c.fail(x, "the body redeclares the outer variable %s and also assigns to that name", id.Name)
 							}
 							local[id.Name]++
 						}
@@ -578,6 +644,10 @@ func (c *glCtx) assignedOuter(list []ast.Stmt) []string {
 				}
 			case *ast.IncDecStmt:
 				note(x.X)
+			case *ast.CallExpr:
+				if ex, ok := c.t.externs[c.p.str(x.Fun)]; ok && ex.effect != "" {
+					seen["trace_"] = true
+				}
 			}
 			return true
 		})
@@ -686,6 +756,9 @@ func (c *glCtx) stmts(list []ast.Stmt, d int) string {
 		if len(parts) == 0 && !c.void {
 			c.fail(x, "bare return in a function with (named) results")
 		}
+		if c.t.traceLean != "" {
+			val = "(" + val + ", trace_)"
+		}
 		if c.inLoop {
 			return "KM.Go.Ctl.ret " + val
 		}
@@ -704,6 +777,9 @@ func (c *glCtx) stmts(list []ast.Stmt, d int) string {
 	case *ast.ExprStmt:
 		if call, ok := x.X.(*ast.CallExpr); ok && c.ignorable(call) {
 			return c.stmts(rest, d)
+		}
+		if call, ex, ok := c.effectOf(x.X); ok {
+			return c.traceUpdate(call, ex, d) + c.stmts(rest, d)
 		}
 		c.fail(x, "expression statement %s", c.p.str(x))
 	case *ast.IncDecStmt:
@@ -770,6 +846,15 @@ func (c *glCtx) stmts(list []ast.Stmt, d int) string {
 }
 
 func (c *glCtx) assign(x *ast.AssignStmt, rest []ast.Stmt, d int) string {
+	if len(x.Rhs) == 1 {
+		if call, ex, ok := c.effectOf(x.Rhs[0]); ok && !c.effectDone[x] {
+			if c.effectDone == nil {
+				c.effectDone = map[*ast.AssignStmt]bool{}
+			}
+			c.effectDone[x] = true
+			return c.traceUpdate(call, ex, d) + c.assign(x, rest, d)
+		}
+	}
 	// several results of one call
 	if len(x.Lhs) > 1 && len(x.Rhs) == 1 {
 		call, ok := x.Rhs[0].(*ast.CallExpr)
@@ -882,26 +967,25 @@ func (c *glCtx) ifStmt(x *ast.IfStmt, rest []ast.Stmt, d int) string {
 			elseList = []ast.Stmt{e}
 		}
 	}
-	checkDecl := func(list []ast.Stmt) {
-		for _, n := range declaredNames(list) {
-			if _, outer := c.lookup(n); outer {
-				c.fail(x, "branch redeclares %s, which is visible outside", n)
-			}
-		}
-	}
 	branch := func(list []ast.Stmt, leaves bool) string {
 		c.push()
 		defer c.pop()
 		if leaves {
 			return c.stmts(list, d+1)
 		}
-		checkDecl(list)
+		// the branch is translated as `list; rest` in one scope: a name the branch re-declares (Go: a new variable
+		// that shadows the outer one inside the block) is harmless exactly when `rest` never mentions that name
+		for _, n := range declaredNames(list) {
+			if _, outer := c.lookup(n); outer && mentionsIdent(rest, n) {
+				c.fail(x, "branch redeclares %s, which the statements after the if still use", n)
+			}
+		}
 		return c.stmts(append(append([]ast.Stmt{}, list...), rest...), d+1)
 	}
 	if !containsJump(x.Body.List) && !containsJump(elseList) {
-		// neither branch leaves: the `if` is a value, namely the variables it assigns
-		checkDecl(x.Body.List)
-		checkDecl(elseList)
+		// neither branch leaves: the `if` is a value, namely the variables it assigns. A name a branch re-declares is
+		// a new variable of that branch (each branch is translated in its own scope and `rest` outside of it);
+		// assignedOuter refuses the case in which that name is also assigned, where the two could be confused.
 		vars := c.assignedOuter(append(append([]ast.Stmt{}, x.Body.List...), elseList...))
 		val := func(list []ast.Stmt) string {
 			c.push()
@@ -927,6 +1011,56 @@ func (c *glCtx) ifStmt(x *ast.IfStmt, rest []ast.Stmt, d int) string {
 		// unreachable rest: Go would reject most such code; keep what is reachable
 	}
 	return "if " + cond + " then" + ind(d+1) + thenS + ind(d) + "else" + ind(d+1) + elseS
+}
+
+// assignsIdent: is there a plain assignment (=, op=, ++) to the identifier n anywhere in the statements?
+func assignsIdent(list []ast.Stmt, n string) bool {
+	found := false
+	for _, st := range list {
+		ast.Inspect(st, func(m ast.Node) bool {
+			switch x := m.(type) {
+			case *ast.AssignStmt:
+				if x.Tok != token.DEFINE {
+					for _, l := range x.Lhs {
+						if id, ok := l.(*ast.Ident); ok && id.Name == n {
+							found = true
+						}
+					}
+				}
+			case *ast.IncDecStmt:
+				if id, ok := x.X.(*ast.Ident); ok && id.Name == n {
+					found = true
+				}
+			}
+			return true
+		})
+	}
+	return found
+}
+
+// mentionsIdent: does any of the statements mention the identifier n (as a variable, not as a field name)?
+func mentionsIdent(list []ast.Stmt, n string) bool {
+	found := false
+	for _, st := range list {
+		ast.Inspect(st, func(m ast.Node) bool {
+			switch x := m.(type) {
+			case *ast.SelectorExpr:
+				ast.Inspect(x.X, func(k ast.Node) bool {
+					if id, ok := k.(*ast.Ident); ok && id.Name == n {
+						found = true
+					}
+					return true
+				})
+				return false
+			case *ast.Ident:
+				if x.Name == n {
+					found = true
+				}
+			}
+			return true
+		})
+	}
+	return found
 }
 
 func (c *glCtx) switchToIf(x *ast.SwitchStmt) ast.Stmt {
@@ -1146,15 +1280,24 @@ func (c *glCtx) function(fd *ast.FuncDecl) string {
 	}
 	c.void = fd.Type.Results == nil || len(fd.Type.Results.List) == 0
 	c.nres = len(goResultTypes(c.p, fd.Name.Name))
+	pre := ""
 	if fd.Type.Results != nil {
 		for _, f := range fd.Type.Results.List {
-			if len(f.Names) > 0 {
-				c.fail(fd, "named results")
+			// named results are locals that start at their zero value; every return of the subset is explicit
+			// (a bare return is refused where it occurs)
+			for _, n := range f.Names {
+				gt := c.p.str(f.Type)
+				c.declare(n.Name, gt)
+				pre += "let " + leanIdent(n.Name) + " := " + c.zero(fd, gt) + ";" + ind(1)
 			}
 		}
 	}
+	if c.t.traceLean != "" {
+		c.declare("trace_", "[]effect")
+		pre += "let trace_ := ([] : List " + c.t.traceLean + ");" + ind(1)
+	}
 	body := c.stmts(fd.Body.List, 1)
-	return "def " + c.t.name + " " + strings.Join(binders, " ") + " : " + c.t.retLean + " :=\n  " + body + "\n"
+	return "def " + c.t.name + " " + strings.Join(binders, " ") + " : " + c.t.retLean + " :=\n  " + pre + body + "\n"
 }
 
 // block translates a range of top-level statements of fd (see glTarget.blockFrom) followed by `return <result>`
